@@ -20,6 +20,9 @@ MCValues2 == {"a", "b"}
 MCValues1 == {"b"}
 MCRules4 == [A |-> [thr |-> 2, items |-> [a |-> 1]]]       \* (same table as MCRules3, over MCValues2)
 MCRules5 == [A |-> [thr |-> 1, items |-> [b |-> 3]]]
+\* instances for the first use of a value (Fresh = TRUE: Lookup / Create / Record are separate steps of up to K callers):
+\* MCRules4 / MCRules5 over MCValues2, and two resources with one value each
+MCRules6 == [A |-> [thr |-> 1, items |-> << >>], B |-> [thr |-> 2, items |-> << >>]]
 
 Emit == PrintT(ToJson(h'))
 
